@@ -63,8 +63,8 @@ Proof.
   - destruct (wfail (set_txid s v')).
     + specialize (Hfin (set_wctl (set_txid s v') false 0) (RErr ReIo) [OStamp tx (rq_id r); OWireFail tx (rq_id r)]).
       destruct (finish _ r (RErr ReIo)) as [s' o]. apply Hfin; reflexivity.
-    + destruct (wdelay (set_txid s v') =? 0); (split; [|intros E; discriminate E]); unfold pending;
-      cbn [ph queue blocked set_ph set_txid set_wctl inflight inflight_req map]; cnorm; perm.
+    + destruct (write_now (set_txid s v')); (split; [|intros E; discriminate E]); unfold pending;
+      cbn [ph queue blocked set_ph set_txid set_wctl set_wdl inflight inflight_req map]; cnorm; perm.
   - specialize (Hfin (set_txid s v') (RErr ReBadRequest) [OStamp tx (rq_id r)]).
     destruct (finish _ r (RErr ReBadRequest)) as [s' o]. apply Hfin; reflexivity.
 Qed.
@@ -150,7 +150,7 @@ Proof. unfold conserves. intros ->. auto. Qed.
 
 Theorem step_conserve s e : done_empty s -> let '(s', o) := step cfg s e in conserves s s' o (accepted s e).
 Proof.
-  intros Hd. destruct e as [c st| | |ok|tx k|tx k| | | | | |dt| |dt|]; cbn [step accepted].
+  intros Hd. destruct e as [c st| | |ok|tx k|tx k| | | | | |dt| |dt| | |k| ]; cbn [step accepted].
   - (* submit *)
     assert (Hdrop : conserves s s (drop_queue [c]) (queued [c])).
     { apply (conserves_frame s s _ (queued [c])); auto. apply completed_drop. }
@@ -205,8 +205,10 @@ Proof.
   - apply (conserves_frame s _ [] []); auto.
   - (* timer *)
     destruct (ph s) eqn:Eph; try (apply (conserves_frame s _ [] []); auto).
-    + destruct (fire cfg until <=? now s); [|apply (conserves_frame s _ [] []); auto].
-      split; [|intros E; discriminate E]. unfold pending. cbn [ph queue blocked set_ph]. rewrite Eph. cnorm. reflexivity.
+    + destruct (Nat.eqb (wpark s) 0 && (fire cfg until <=? now s)).
+      * unfold written. split; [|intros E; discriminate E]. unfold pending. cbn [ph queue blocked set_ph]. rewrite Eph. cnorm. reflexivity.
+      * destruct (fire cfg (wdl s) <=? now s); [|apply (conserves_frame s _ [] []); auto].
+        pose proof (finish_summary s r (RErr write_timeout_error)) as H. destruct (finish s r (RErr write_timeout_error)) as [s' o]. by_sum H Eph.
     + destruct (fire cfg deadline <=? now s); [|apply (conserves_frame s _ [] []); auto].
       pose proof (finish_summary s r (RErr deadline_error)) as H. destruct (finish s r (RErr deadline_error)) as [s' o]. by_sum H Eph.
     + destruct (fire cfg until <=? now s); [|apply (conserves_frame s _ [] []); auto].
@@ -215,6 +217,13 @@ Proof.
   - (* abort *)
     destruct (ph s) eqn:Eph; try (pose proof (crash_summary s) as H; destruct (crash s) as [s' o]; by_sum H Eph).
     apply (conserves_frame s _ [] []); auto.
+  - apply (conserves_frame s _ [] []); auto.
+  - apply (conserves_frame s _ [] []); auto.
+  - (* release *)
+    destruct (wpark s) as [|n] eqn:Ew; [apply (conserves_frame s _ [] []); auto|].
+    cbn [ph set_wpark]. destruct (ph s) eqn:Eph; try (apply (conserves_frame s _ [] []); auto; fail).
+    destruct (Nat.eqb n 0 && (fire cfg until <=? now (set_wpark s n))); [|apply (conserves_frame s _ [] []); auto].
+    unfold written. split; [|intros E; discriminate E]. unfold pending. cbn [ph queue blocked set_ph set_wpark]. rewrite Eph. cnorm. reflexivity.
 Qed.
 
 End Conserve.
@@ -290,12 +299,27 @@ Proof.
   destruct H as (_ & _ & _ & _ & _ & [(_ & _ & _ & ->)|(_ & _ & _ & ->)]); left; reflexivity.
 Qed.
 
-(* a write in progress ends: the request is then in flight *)
+(* a write in progress ends, however long the transport takes nothing: once the clock reaches the timer instant of
+   the transmission bound (write start + request timeout) the timer step either finds the write done - the request
+   is then in flight - or completes the request (write_timeout_error, i.e. Io) *)
 Lemma writing_not_stuck s r tx u : ph s = PWriting r tx u ->
+  let s1 := fst (step cfg s (EvTick (fire cfg (wdl s) - now s))) in
+  (exists d, ph (fst (step cfg s1 EvTimer)) = PInFlight r tx d) \/ In (rq_id r) (completed (snd (step cfg s1 EvTimer))).
+Proof.
+  intros Eph. cbn [step fst]. cbn [ph set_now now wpark wdl]. rewrite Eph.
+  destruct (Nat.eqb (wpark s) 0 && (fire cfg u <=? now s + (fire cfg (wdl s) - now s))); [left; eexists; reflexivity|].
+  assert (Hle : (fire cfg (wdl s) <=? now s + (fire cfg (wdl s) - now s)) = true) by (apply N.leb_le; lia). rewrite Hle.
+  right. pose proof (finish_summary (set_now s (now s + (fire cfg (wdl s) - now s))) r (RErr write_timeout_error)) as H.
+  destruct (finish _ r (RErr write_timeout_error)) as [s' o]. cbn [snd].
+  destruct H as (_ & _ & _ & _ & _ & [(_ & _ & _ & ->)|(_ & _ & _ & ->)]); left; reflexivity.
+Qed.
+
+(* a slow write on a transport that is not parked is done at its instant u: the request is then in flight *)
+Lemma slow_write_done s r tx u : ph s = PWriting r tx u -> wpark s = 0%nat ->
   let s1 := fst (step cfg s (EvTick (fire cfg u - now s))) in
   exists d, ph (fst (step cfg s1 EvTimer)) = PInFlight r tx d.
 Proof.
-  intros Eph. cbn [step fst]. cbn [ph set_now now]. rewrite Eph.
+  intros Eph Hw. cbn [step fst]. cbn [ph set_now now wpark wdl]. rewrite Eph, Hw.
   assert (Hle : (fire cfg u <=? now s + (fire cfg u - now s)) = true) by (apply N.leb_le; lia). rewrite Hle.
   eexists. reflexivity.
 Qed.
@@ -317,7 +341,7 @@ Proof.
   - destruct (wfail (set_txid s1 v')).
     + specialize (Hfin (set_wctl (set_txid s1 v') false 0) (RErr ReIo) [OStamp tx (rq_id r); OWireFail tx (rq_id r)]).
       destruct (finish _ r (RErr ReIo)) as [s' o]. left. exact Hfin.
-    + destruct (wdelay (set_txid s1 v') =? 0); right; reflexivity.
+    + destruct (write_now (set_txid s1 v')); right; reflexivity.
   - specialize (Hfin (set_txid s1 v') (RErr ReBadRequest) [OStamp tx (rq_id r)]). destruct (finish _ r _) as [s' o]. left. exact Hfin.
 Qed.
 
@@ -422,10 +446,13 @@ Definition explains (s : state) (e : event) (s' : state) (o : list output) (id :
       (* the deadline branch of the outstanding request *)
       e = EvTimer /\ exists r tx d, ph s = PInFlight r tx d /\ rq_id r = id /\ fire cfg d <= now s
   | RErr ReIo =>
-      (* the I/O error that ended the connection: a read error / EOF while outstanding, or the failed write *)
+      (* the I/O error that ended the connection: a read error / EOF while outstanding, the failed write, or the
+         write that could not be finished in time *)
       In (OEnd SeIoError) o /\
       ((exists r tx d, ph s = PInFlight r tx d /\ rq_id r = id /\ (e = EvEof \/ e = EvIoErr)) \/
-       (e = EvRecv /\ ph s = PIdle /\ wfail s = true /\ exists r q, queue s = CReq r :: q /\ rq_id r = id))
+       (e = EvRecv /\ ph s = PIdle /\ wfail s = true /\ exists r q, queue s = CReq r :: q /\ rq_id r = id) \/
+       (* the transmission that was not done when its bound (write start + request timeout) passed *)
+       (e = EvTimer /\ exists r tx u, ph s = PWriting r tx u /\ rq_id r = id /\ fire cfg (wdl s) <= now s))
   | RErr ReBadFrame =>
       (* the framing error that ended the connection *)
       In (OEnd SeBadFrame) o /\ exists r tx d, ph s = PInFlight r tx d /\ rq_id r = id /\ e = EvGarbage
@@ -475,7 +502,7 @@ Qed.
 Theorem step_class s e id res : In (OComplete id res) (snd (step cfg s e)) ->
   explains s e (fst (step cfg s e)) (snd (step cfg s e)) id res.
 Proof.
-  destruct e as [c st| | |ok|tx k|tx k| | | | | |dt| |dt|]; cbn [step].
+  destruct e as [c st| | |ok|tx k|tx k| | | | | |dt| |dt| | |k| ]; cbn [step].
   - (* submit *)
     assert (Hdone : ph s = PDone -> In (OComplete id res) (drop_queue [c]) -> explains s (EvSubmit c st) s (drop_queue [c]) id res).
     { intros Hp H. apply in_drop_complete in H. rewrite H. apply explains_drop. exact Hp. }
@@ -528,8 +555,8 @@ Proof.
               ** specialize (Hfin (set_wctl (set_txid s1 v') false 0) (RErr ReIo) [OStamp tx (rq_id r0); OWireFail tx (rq_id r0)]).
                  destruct (finish _ r0 (RErr ReIo)) as [s' o]. cbn [fst snd]. intros H.
                  destruct Hfin as [(-> & -> & Hend)|[-> P]]; [intros i r [E|[E|[]]]; discriminate|exact H| |apply explains_drop; exact P].
-                 split; [apply (Hend ReIo SeIoError); reflexivity|]. right. repeat split; auto. exists r0, q. auto.
-              ** destruct (wdelay (set_txid s1 v') =? 0); cbn [fst snd]; intros H; cbn in H; repeat (destruct H as [H|H]; try discriminate); destruct H.
+                 split; [apply (Hend ReIo SeIoError); reflexivity|]. right. left. repeat split; auto. exists r0, q. auto.
+              ** destruct (write_now (set_txid s1 v')); cbn [fst snd]; intros H; cbn in H; repeat (destruct H as [H|H]; try discriminate); destruct H.
            ++ specialize (Hfin (set_txid s1 v') (RErr ReBadRequest) [OStamp tx (rq_id r0)]).
               destruct (finish _ r0 (RErr ReBadRequest)) as [s' o]. cbn [fst snd]. intros H.
               destruct Hfin as [(-> & -> & Hend)|[-> P]]; [intros i r [E|[]]; discriminate|exact H| |apply explains_drop; exact P].
@@ -567,7 +594,11 @@ Proof.
   - intros [].
   - (* timer *)
     destruct (ph s) eqn:Eph; try (intros []).
-    + destruct (fire cfg until <=? now s); [|intros []]. cbn [fst snd]. intros [H|[]]. discriminate.
+    + destruct (Nat.eqb (wpark s) 0 && (fire cfg until <=? now s)); [cbn [fst snd]; intros [H|[]]; discriminate|].
+      destruct (N.leb_spec (fire cfg (wdl s)) (now s)) as [Hle|Hlt]; [|intros []].
+      pose proof (finish_completions s r (RErr write_timeout_error)) as F. destruct (finish s r (RErr write_timeout_error)) as [s' o]. destruct F as [F1 F2].
+      cbn [fst snd]. intros H. destruct (F1 _ _ H) as [[-> ->]|[-> P]]; [|apply explains_drop; exact P].
+      cbn. split; [apply (F2 ReIo SeIoError); reflexivity|]. right. right. split; [reflexivity|]. exists r, tx, until. auto.
     + destruct (N.leb_spec (fire cfg deadline) (now s)) as [Hle|Hlt]; [|intros []].
       pose proof (finish_completions s r (RErr deadline_error)) as F. destruct (finish s r (RErr deadline_error)) as [s' o]. destruct F as [F _].
       cbn [fst snd]. intros H. destruct (F _ _ H) as [[-> ->]|[-> P]]; [|apply explains_drop; exact P].
@@ -578,6 +609,11 @@ Proof.
   - (* abort *)
     destruct (ph s) eqn:Eph; try (pose proof (crash_drops s) as T; destruct (crash s) as [s' o]; cbn [fst snd]; intros H; drops T H).
     intros [].
+  - intros [].
+  - intros [].
+  - (* release *)
+    destruct (wpark s) as [|n]; [intros []|]. cbn [ph set_wpark]. destruct (ph s); try (intros []).
+    destruct (Nat.eqb n 0 && _); [cbn [fst snd]; intros [H|[]]; discriminate|intros []].
 Qed.
 End Class.
 
